@@ -50,7 +50,37 @@ class C04(RunProp):
     )
     budgets = {"quick": 300, "thorough": 5000}
 
+    @staticmethod
+    def _float_loop(rng: random.Random) -> dict:
+        """A counting loop whose state is a FLOAT far from the unit scale (an epoch timestamp, a large coordinate) stepped by 1: every
+        iteration changes the value, however small the change is relative to it (integral floats below 2**53: exact arithmetic)."""
+        base = rng.choice([1_700_000_000, 10**12, 2**40, 10**15])
+        x0 = rng.randint(0, 2)
+        n = x0 + rng.randint(2, 5)
+        gate = {"name": "gate", "kind": "ifelse", "params": [["x", None]], "targets": ["b1", "__END__"], "body": {"b": "ltNum", "k": base + n}, "defaultOpen": rng.random() < 0.7}
+        nodes = [gate, {"name": "b1", "kind": "fn", "params": [["x", None]], "dataOuts": ["x"], "body": {"b": "inc", "k": 1}}]
+        rng.shuffle(nodes)
+        return {"program": [{"name": "g0", "nodes": nodes, "bound": []}], "values": [["x", {"f": base + x0}]],
+                "floatloop": {"base": base, "x0": x0, "n": n}}
+
+    def impl(self, case: dict) -> Any:
+        if case.get("floatloop"):
+            from .. import impl as _impl
+
+            return _impl.run_case(case["program"], None, case["values"], {"maxIter": 200, "errMode": "continue"}, case["runner"])
+        return super().impl(case)
+
+    def model(self, case: dict, driver: Any) -> Any:
+        return None if case.get("floatloop") else super().model(case, driver)       # floats are outside the model's value universe
+
+    def compare(self, case: dict, i: Any, m: Any) -> str | None:
+        return None if case.get("floatloop") else super().compare(case, i, m)
+
     def cases(self, rng: random.Random, tier: str) -> Iterable[dict]:
+        for _ in range(3):
+            c = self._float_loop(rng)
+            for runner in ("sync", "async"):
+                yield {"program": c["program"], "values": c["values"], "cfg": {}, "runner": runner, "loop": None, "floatloop": c["floatloop"]}
         forced = 4      # loops whose body runs inside a NESTED graph, under budgets at and just below the need — whatever the seed
         while True:
             c = gen.gen_loop(rng, max_n=6 if tier == "quick" else rng.choice([6, 15, 40]), allow_nested_body=True)
@@ -76,6 +106,16 @@ class C04(RunProp):
     def oracle(self, case: dict, obs: Any) -> str | None:
         if obs["status"] == "build-error":
             return f"valid loop program rejected at construction: {obs.get('detail')}"
+        if case.get("floatloop"):
+            fl = case["floatloop"]
+            iters = max(0, fl["n"] - fl["x0"])
+            runs = sum(1 for f, _ in obs["calls"] if f.endswith(":b1"))
+            x = dict((k, v) for k, v in obs["values"]).get("x")
+            want = {"f": fl["base"] + max(fl["x0"], fl["n"])}
+            if obs["status"] != "completed" or runs != iters or x != want:
+                return (f"float loop from {fl['base']}+{fl['x0']} while x < {fl['base']}+{fl['n']}: status {obs['status']}, body ran {runs} times, x = {x!r}; "
+                        f"the sequential loop iterates {iters} times and ends with {want!r}")
+            return None
         lp = case["loop"]
         seq = sequential(lp)
         mi = case["cfg"].get("maxIter", 1000)
@@ -124,9 +164,13 @@ class C04(RunProp):
         return None
 
     def nontrivial(self, case: dict, obs: Any) -> bool:
+        if case.get("floatloop"):
+            return case["floatloop"]["n"] - case["floatloop"]["x0"] >= 2
         return sequential(case["loop"])["iters"] >= 2
 
     def features(self, case: dict, obs: Any) -> dict:
+        if case.get("floatloop"):
+            return {"family": "float-state", "iters": max(0, case["floatloop"]["n"] - case["floatloop"]["x0"]), "status": obs["status"], "runner": case["runner"]}
         lp = case["loop"]
         return {"family": lp["family"], "k": lp["k"], "iters": sequential(lp)["iters"], "status": obs["status"], "runner": case["runner"],
                 "open": lp["defaultOpen"], "maxIter": "default" if "maxIter" not in case["cfg"] else "near-bound"}
